@@ -19,21 +19,22 @@ import (
 
 // Scenario is one abstract two-station scenario (DESIGN.md 4 C01); it is concretised from Seed.
 type Scenario struct {
-	ID      int                  `json:"id"`
-	Master  string               `json:"master"` // "A" or "B"
-	Msgs    map[string][]MsgSpec `json:"msgs"`   // outbound messages per station
-	Batched map[string]bool      `json:"batched"`
-	Motd    []string             `json:"motd"`
-	Sched   string               `json:"sched"`
-	Seg     string               `json:"seg"`
-	Seed    int64                `json:"seed"`
-	Handler string               `json:"handler"` // "mem" (default) or "dir"
-	Fault   *Fault               `json:"fault,omitempty"`
+	ID        int                  `json:"id"`
+	Master    string               `json:"master"` // "A" or "B"
+	Msgs      map[string][]MsgSpec `json:"msgs"`   // outbound messages per station
+	Batched   map[string]bool      `json:"batched"`
+	Motd      []string             `json:"motd"`
+	Sched     string               `json:"sched"`
+	Seg       string               `json:"seg"`
+	Seed      int64                `json:"seed"`
+	Handler   string               `json:"handler"`   // "mem" (default) or "dir"
+	Flushable bool                 `json:"flushable"` // the connections implement transport.Flusher / TxBuffer
+	Fault     *Fault               `json:"fault,omitempty"`
 }
 
 // Fault describes the fault injected into one session.
 type Fault struct {
-	Kind     string `json:"kind"`     // "cut", "storefail", "alter"
+	Kind     string `json:"kind"`     // "cut", "storefail", "fsfail" (directory mailbox: a real write fault), "alter"
 	Dir      string `json:"dir"`      // receiver of the affected direction
 	At       int    `json:"at"`       // byte count (cut), store index (storefail), offset (alter)
 	WriteErr bool   `json:"writeerr"` // cut: writer sees errors afterwards
@@ -167,6 +168,8 @@ func RunSessionOpts(sc *Scenario, st map[string]*Station, r *Recorder, configure
 			l.CutDir, l.CutAt, l.CutWriteErr, l.CutDropRev = f.Dir, f.At, f.WriteErr, f.DropRev
 		case "storefail":
 			st[f.Dir].FailStoreAt = f.At
+		case "fsfail":
+			st[f.Dir].FSFailAt = f.At
 		case "alter":
 			l.AltDir = f.Dir
 			l.Alter = makeAlter(f)
@@ -199,6 +202,9 @@ func RunSessionOpts(sc *Scenario, st map[string]*Station, r *Recorder, configure
 			sess.SetStatusUpdater(updaters[name])
 		}
 		var conn net.Conn = l.End(name)
+		if txRate == 0 && sc.Flushable {
+			txRate = 1e7 // a transport with a transmit buffer and Flush (like the radio modems), fast enough not to matter otherwise
+		}
 		if txRate > 0 { // a modem-like transmit buffer draining at txRate bytes per second
 			conn = &txEnd{End: l.End(name), rate: txRate}
 		} else if txRate < 0 {
@@ -249,6 +255,7 @@ func RunSessionOpts(sc *Scenario, st map[string]*Station, r *Recorder, configure
 	res.Bytes = obs.bytes
 	for _, s := range st {
 		s.FailStoreAt = 0
+		s.FSFailAt = 0
 	}
 	return res
 }
